@@ -607,6 +607,9 @@ func pfqRun(t *testing.T, out *verifOut, cs string, at string, lines []string, e
 
 var pfqNames = []string{"a", "b", "c", "d", "e", "tool", "Tool"}
 
+// pfqCaseNames: tool names that differ only in case (the client's lookup and the server's table are case-sensitive).
+var pfqCaseNames = []string{"tool", "Tool", "TOOL", "tooL", "a", "A", "b"}
+
 type pfqGenTool struct {
 	schema []*pfProp
 }
@@ -670,6 +673,10 @@ func (g *pfGen) pfqMutate(ps []*pfProp) []*pfProp {
 
 // pfqGenerate: the operation lines of case (seed, idx).
 func (g *pfGen) pfqGenerate() []string {
+	pfqNames := pfqNames
+	if g.chance(15) {
+		pfqNames = pfqCaseNames
+	}
 	kind, pv := "Ksl", "pvnew"
 	if g.chance(12) {
 		kind = "Ksf"
